@@ -107,6 +107,43 @@ def run(ck):
         ok = bool(tomb) and all(any(f.dominates(db, tb) for (db, _) in det) or any(f.dominates(cb, tb) or f.dominates(tb, cb) for cb in clears) for (tb, _) in tomb)
         ck.ob("DOM", f.path, "value-detached-when-deleted", ok, "the node's value pointer is taken (mem::take) on the path that tombstones the entry: %d detach sites, %d tombstones" % (len(det) + len(clears), len(tomb)), f.loc())
 
+    # migration to another backing store: every reference that is written out or kept was handed out by store_raw on the NEW
+    # store (directly, or through the stack of child references that is filled from store_raw only); a reference read from the
+    # node being migrated belongs to the old store
+    nm = 0
+    REFSRC = r"BackingStoreStore::store_raw$"
+    for pth in sorted(c.paths()):
+        if not re.search(r"trie::low_level::.*(::migrate|::load_and_store)(::\{closure#\d+\})*$", pth):
+            continue
+        for b in c.get_all(pth):
+            g = Fn(b)
+            if not g.calls(r"types::Reference::store$|" + REFSRC):
+                continue
+            pushes = [(bi, t) for (bi, t) in g.calls(r"Vec::<.*>::push$") if "Reference" in (t["f"].get("self") or "") + " ".join(t["f"].get("gargs") or [])]
+            for k, (bi, t) in enumerate(pushes):
+                o = g.origins(t["args"][1])
+                nm += 1
+                ck.ob("DEFUSE", pth, "child-reference-from-new-store#%d" % k, has_call_origin(o, REFSRC) and not any(a[0] == "field" and a[1] == "reference" for a in o),
+                      "a reference pushed for the parent to record comes from store_raw on the target store", g.loc(bi))
+            for k, (bi, t) in enumerate(g.calls(r"types::Reference::store$")):
+                o = g.origins(t["args"][0])
+                nm += 1
+                ok = (has_call_origin(o, REFSRC) or has_call_origin(o, r"Vec::<.*>::pop$")) and not any(a[0] == "field" and a[1] == "reference" for a in o)
+                ck.ob("DEFUSE", pth, "written-reference-from-new-store#%d" % k, ok,
+                      "the reference written into the migrated node was handed out by the target store" if ok else
+                      "the reference written into the migrated node is taken from the node being migrated (an offset into the OLD store), the value is not copied", g.loc(bi))
+            for bi in g.reachable():
+                for st in g.stmts(bi):
+                    rv = st.get("rv", {})
+                    if rv.get("k") == "agg" and rv.get("agg") == "adt" and rv.get("adt", "").endswith("low_level::CachedRef") and rv.get("variant") == "Disk":
+                        o = set()
+                        for op in rv["ops"]:
+                            o |= g.origins(op)
+                        nm += 1
+                        ok = (has_call_origin(o, REFSRC) or has_call_origin(o, r"Vec::<.*>::pop$")) and not any(a[0] == "field" and a[1] == "reference" for a in o)
+                        ck.ob("DEFUSE", pth, "kept-reference-from-new-store@bb%d" % bi, ok, "the Disk reference kept after migration was handed out by the target store", g.loc(bi))
+    ck.floor("DEFUSE", "references written/kept during migration", nm, 8)
+
     # single definition of node hashing
     hashers = [p for p in c.paths() if re.search(r"ToSHA256<Ctx>>::hash$", p) and "low_level::Node " in p]
     ck.ob("WHO", "Node::hash", "single-definition", len(hashers) == 1, "ToSHA256 implementations for Node: %d" % len(hashers), "")
